@@ -555,3 +555,6 @@ def run(ck):
     reevaluate(ck, 'C09.h', 'c17', lambda r, k: (r == 'C17.f' and k.startswith(('sts_n', 'sts_atmost', 'sts_drain'))) or
                (r in ('C17.b', 'C17.c', 'C17.d') and k.startswith(('source_get_chunk', 'source_adapt'))),
                'a length-prefixed frame is moved into the receive sink with sts_n(source, sink, length): exactly that many octets, none for an empty frame, whatever the source answers')
+    ck.rule('C09.i', 'on a serial channel the receive path learns where a frame ends - an empty frame included - from the SLIP decoder: its transition table (state x input -> next state, result, octet) is the one C12.e decides (re-evaluated): every delimiter in NORMAL state ends a frame, so a frame shorter than a header is seen and answered as bad header encoding')
+    reevaluate(ck, 'C09.i', 'c12', lambda r, k: r == 'C12.e',
+               'regp_recv gets one frame per call from rfc1055_decode; frame boundaries and resynchronisation are the decoder\'s transition table')
